@@ -99,6 +99,8 @@ pub struct Cfg {
     pub height_clauses: bool,
     /// every log line has the same text (count is then the only thing that distinguishes them)
     pub same_log_text: bool,
+    /// focus: keep only these operations in the alphabet (small alphabets reach deep histories)
+    pub only: Option<fn(&Op) -> bool>,
 }
 
 impl Cfg {
@@ -126,6 +128,7 @@ impl Cfg {
             vt: false,
             height_clauses: false,
             same_log_text: false,
+            only: None,
         }
     }
 
@@ -309,6 +312,9 @@ impl Hist for Cfg {
         }
         if self.limiter_ops {
             v.push(Op::Idle);
+        }
+        if let Some(keep) = self.only {
+            v.retain(keep);
         }
         v
     }
